@@ -61,7 +61,7 @@ def plan(req):
         for disperse in (False, True):
             p = dict(pars)
             if disperse:
-                W.add_dispersity(info, p, rng, "1d")
+                W.add_dispersity(info, p, rng, "1d", big=(k % 2 == 1))
                 if len(p) == len(pars):
                     continue                                   # nothing to disperse
             for mode in range(1, nmodes + 1):
